@@ -180,7 +180,7 @@ func c17Setup(w *world.World) {
 		bD("_id", bD("k", int32(1), "l", bson.A{int32(7)}), "a", bD("b", bson.A{int32(3)}), "tags", bson.A{"y"}, "n", int32(2)),
 		bD("_id", primitive.Binary{Data: []byte{9, 9}}, "a", bD("b", bson.A{}), "tags", bson.A{bD("t", bson.A{int32(1)})}, "n", int32(3)),
 		// arrays directly inside arrays
-		bD("_id", int32(4), "grid", bson.A{bson.A{int32(1), int32(2)}, bson.A{int32(3), bson.A{int32(4)}}}, "n", int32(4)),
+		bD("_id", int32(4), "grid", bson.A{bson.A{int32(1), int32(2)}, bson.A{int32(3), bson.A{int32(4)}}}, "n", int32(4), "unsorted", bson.A{"c", "a", "b", "a"}),
 	}
 	if _, err := c.InsertMany(w.Ctx, docs); err != nil {
 		panic(err)
@@ -442,9 +442,9 @@ func c17Calls() []c17Call {
 		})
 		return []interface{}{&d, []byte(raw), again}
 	})
-	add("Distinct(values of document-valued and array fields) (read only)", func() []interface{} { return []interface{}{bD("n", bD("$lte", i(3)))} }, func(w *world.World, a []interface{}) []interface{} {
+	add("Distinct(values of document-valued and array fields) (read only)", func() []interface{} { return []interface{}{bD("n", bD("$lte", i(4)))} }, func(w *world.World, a []interface{}) []interface{} {
 		var out []interface{}
-		for _, f := range []string{"_id", "a", "tags", "blob"} {
+		for _, f := range []string{"_id", "a", "tags", "blob", "unsorted", "grid"} {
 			vals, err := coll(w).Distinct(w.Ctx, f, a[0])
 			if err != nil {
 				panic(err)
@@ -525,6 +525,7 @@ func c17Calls() []c17Call {
 		return []interface{}{
 			&bson.D{{Key: "_id", Value: i(70)}, {Key: "grid", Value: bson.A{bson.A{i(1), i(2)}, bson.A{bD("x", bson.A{i(3)})}}}},
 			&bson.D{{Key: "grid", Value: bson.A{bson.A{i(5)}, bson.A{bson.A{i(6)}}}}, {Key: "n", Value: i(1)}},
+			&bson.D{{Key: "_id", Value: bD("tenant", "t", "seq", bson.A{i(1), i(2)})}, {Key: "n", Value: i(-77)}, {Key: "grid", Value: bson.A{bson.A{i(9)}}}},
 		}
 	}, func(w *world.World, a []interface{}) []interface{} {
 		txn, err := w.Engine.Begin(w.Ctx, true)
@@ -538,6 +539,11 @@ func c17Calls() []c17Call {
 		}
 		q1 := bD("_id", i(1))
 		if _, err := txn.Replace(h, &q1, nil, a[1].(*bson.D), false); err != nil {
+			panic(err)
+		}
+		// an upserting replacement that matches nothing and carries a document-valued _id
+		qn := bD("n", i(-77))
+		if _, err := txn.Replace(h, &qn, nil, a[2].(*bson.D), true); err != nil {
 			panic(err)
 		}
 		if err := w.Engine.Commit(txn); err != nil {
